@@ -27,7 +27,7 @@ REPO = os.environ.get('VERIF_REPO', '/repo')
 BUILD = os.path.join(VERIF, 'build')
 EXT = os.path.join(BUILD, 'ext')
 TOOLCHAIN = '1.98.1-x86_64-unknown-linux-gnu'
-RLIMIT = '30'
+RLIMIT = os.environ.get('VERIF_RLIMIT', '30')
 CANARY_RLIMIT = '1'  # a canary (`ensures false`) only has to be NOT provable; resource-out counts as not provable
 CANARY_POOL = cf.ThreadPoolExecutor(max_workers=10)
 
